@@ -12,7 +12,7 @@ import (
 // member's request; every participant that is a member throughout the block receives a0's relay exactly once
 // and a0 never receives it.
 func VerifC02Par() {
-	s := newStepWorld(stepShape{mods: vModVikja | vModOdal, preset: 0})
+	s := newStepWorld(stepShape{mods: vModVikja | vModOdal, preset: 0, noFree: true})
 	menu := []int{0, 1, 3, 8, 9} // entity add, entity delete (own), targeted custom, action, asset add
 	k := menu[verifnd.Choice(len(menu))]
 	r, name := s.c09Request(s.a0, s.eOwn, k)
